@@ -203,6 +203,58 @@ def consumers(ctx, rnd):
             else:
                 continue
             break
+    # ---- identifiers follow the circuit's current structure: observe, edit in place, observe again
+    from pyimpspec import Resistor, Capacitor
+    for j in range(60 if big else 15):
+        t = circgen.fill(rnd, circgen.random_shape(rnd, rnd.randint(2, 8)), ["R", "C", "L", "Q", "W"])
+        c = Circuit(circgen.build(t))
+        try:
+            c.generate_element_identifiers(running=True)
+            c.generate_element_identifiers(running=False)
+            [c.get_element_name(e) for e in c.get_elements(recursive=True)]
+            cons = [x for x in c.get_connections(recursive=True)]
+            con = rnd.choice(cons)
+            r = rnd.random()
+            if r < 0.4 and len(con) > 1:
+                con.pop(rnd.randrange(len(con)))
+                what = "pop"
+            elif r < 0.7:
+                con.insert(rnd.randrange(len(con) + 1), rnd.choice([Resistor, Capacitor])())
+                what = "insert"
+            else:
+                items = list(con)
+                con.clear()
+                con.extend(items[::-1])
+                what = "reverse"
+            fresh = parse_cdc(c.serialize(12))
+        except Exception as x:  # noqa
+            ctx.count("consumer:edit:skipped:" + type(x).__name__)
+            continue
+        if fresh.to_string() != c.to_string():
+            ctx.count("consumer:edit:not-normal-form(skipped)")
+            continue
+        ctx.count("consumer:identifiers-after-edit")
+        ctx.note_case(("edit", what, c.to_string(0)))
+        els_c, els_f = c.get_elements(recursive=True), fresh.get_elements(recursive=True)
+        try:
+            [c.get_element_name(e) for e in els_c]
+            c.generate_element_identifiers(running=True)
+        except Exception as x:  # noqa
+            ctx.add_failing("identifiers-after-in-place-edit", {"cdc": c.serialize(3), "edit": what}, observed=f"{type(x).__name__}: {x}"[:200], expected="identifiers and names of the edited circuit",
+                            clause="in every circuit each element receives exactly one identifier of each kind and one display name")
+            continue
+        for running in (True, False):
+            ids_c, ids_f = c.generate_element_identifiers(running=running), fresh.generate_element_identifiers(running=running)
+            got = [ids_c.get(e) for e in els_c]
+            want = [ids_f.get(e) for e in els_f]
+            if got != want or len(ids_c) != len(els_c):
+                ctx.add_failing("identifiers-after-in-place-edit", {"cdc": c.serialize(3), "edit": what, "running": running}, observed=f"{got} ({len(ids_c)} identifiers)", expected=f"{want}",
+                                clause="in every circuit each element receives exactly one identifier of each kind (running 0..N-1, per type from 1)")
+                break
+        names_c = [c.get_element_name(e) for e in els_c]
+        names_f = [fresh.get_element_name(e) for e in els_f]
+        if names_c != names_f:
+            ctx.add_failing("names-after-in-place-edit", {"cdc": c.serialize(3), "edit": what}, observed=names_c, expected=names_f, clause="one display name ... the same name denotes the same element")
     # ---- symbolic variables
     symbols = ["R", "C", "L", "Q", "W", "Tlm", "Tlmbo"]
     for j in range(40 if big else 10):
@@ -213,7 +265,7 @@ def consumers(ctx, rnd):
         ids = FT.generate_fit_identifiers(c)
         want = {getattr(m, k) for e, m in ids.items() for k in e.get_values() if not e.get_label()}
         try:
-            with pyutil.TimeLimit(60):
+            with pyutil.TimeLimit(20):
                 expr = c.to_sympy(substitute=False)
                 got = {str(s_) for s_ in expr.free_symbols} - {"f"}
         except (Exception, TimeoutError) as x:  # noqa
@@ -227,7 +279,7 @@ def consumers(ctx, rnd):
             ctx.add_failing("sympy-variables", {"cdc": c.serialize(3)}, observed=sorted(got - want), expected=f"a subset of {sorted(want)}", clause="the same name/identifier denotes the same element in the symbolic expression's variables")
             continue
         try:
-            with pyutil.TimeLimit(60):
+            with pyutil.TimeLimit(20):
                 sub = {getattr(m, k): v for e, m in ids.items() for k, v in e.get_values().items()}
                 f0 = 10 ** rnd.uniform(-1, 3)
                 z = complex(sympy.N(expr.subs({k: (v if np.isfinite(v) else sympy.oo) for k, v in sub.items()}).subs("f", f0)))
